@@ -473,6 +473,7 @@ func (fr *Frame) checkPre(in ssa.Instruction, callee *ssa.Function, c *Contract,
 	env := vc.calleeEnv(fr, c, callee, nil, args)
 	env.heap = fr.cur
 	env.old = fr.cur
+	env.held = fr.held
 	key := "pre@" + c.Func
 	for k, rq := range c.Requires {
 		cond := env.evalBool(rq.E)
@@ -495,6 +496,7 @@ func (fr *Frame) applyContract(in ssa.Instruction, callee *ssa.Function, cc *ssa
 	env := vc.calleeEnv(fr, c, callee, cc, args)
 	env.heap = pre
 	env.old = pre
+	env.held = fr.held
 	key := "pre@" + c.Func
 	for k, rq := range c.Requires {
 		cond := env.evalBool(rq.E)
@@ -577,6 +579,7 @@ func (fr *Frame) inline(in ssa.Instruction, callee *ssa.Function, c *Contract, a
 	vc := fr.vc
 	sub := vc.newFrame(callee, c, fr.depth+1)
 	sub.inlined = true
+	sub.heldIn = copySet(fr.held)
 	if c == nil {
 		// safety classes requested by the enclosing contract extend into auto-inlined helpers
 		sub.c = &Contract{Pkg: QualNamePkg(callee), Func: FuncName(callee), Checks: fr.checksOf(), Props: fr.propsOf(), LoopInv: map[int][]Clause{}, Arith: fr.arithOf()}
@@ -615,6 +618,23 @@ func (fr *Frame) inline(in ssa.Instruction, callee *ssa.Function, c *Contract, a
 	}
 	// the call returns iff some return is reached
 	fr.assume(or(conds...))
+	// locks held after the call: those held at every return of the callee
+	var heldAfter map[string]bool
+	for _, r := range sub.rets {
+		ho := sub.heldOut[r.block]
+		if heldAfter == nil {
+			heldAfter = copySet(ho)
+		} else {
+			for k := range heldAfter {
+				if !ho[k] {
+					delete(heldAfter, k)
+				}
+			}
+		}
+	}
+	if heldAfter != nil {
+		fr.held = heldAfter
+	}
 	fr.cur = vc.mergeHeaps(heaps, conds)
 	nres := callee.Signature.Results().Len()
 	mk := func(i int) *Val {
